@@ -76,3 +76,10 @@ From TrV Require Import Proofs.FullStatements.
 Theorem C05_full : C05_full_statement.
 Proof. exact C05_original. Qed.
 Print Assumptions C05_full.
+
+Theorem C05_reset_access_minmax_is_code : forall rows,
+  G.gen_reset_acc_tests_independent = true /\
+  fold_left (minmax_step G.gen_reset_acc_min G.gen_reset_acc_max G.gen_reset_acc_tests_independent) rows
+            (G.gen_reset_min_init, G.gen_reset_max_init) = (min_time rows, max_time rows).
+Proof. exact reset_access_minmax_tie. Qed.
+Print Assumptions C05_reset_access_minmax_is_code.
